@@ -29,6 +29,7 @@ SPEC = {
 
 WORDS = ['WHOLE', 'FOODS', 'MARKET', 'Starbucks', 'store', 'UBER', 'EATS', 'AMZN', 'Mktp', 'US', 'Netflix.com', 'COSTCO', 'WHSE', 'Shell', 'OIL',
          "O'Reilly", 'AT&T', 'T-Mobile', 'H&M', 'Café', 'ÜBER', '7-ELEVEN', 'A+', 'C++', 'what?', '(refund)', '[adj]', '{x}', 'a|b', '^top', '$5',
+         "CHRISTOPHER'S", 'STEAKHOUSE', '(DOWNTOWN)', '(AIRPORT)', 'INTERNATIONAL', 'RESTAURANT+BAR', 'MARKETPLACE.COM', 'SUPERCALIFRAGILISTIC',
          'back\\slash', '"quoted"', "it's", '50%', 'x*y', 'dot.com', 'semi;colon', 'a,b', 'DES:123', 'ID:9']
 PREFIX = ['', '', '', 'SQ *', 'TST*', 'TST* ', 'APLPAY ', 'SP ', 'PP*', 'GOOGLE *', 'sq *', 'Tst*']
 SUFFIX = ['', '', ' WA', ' CA', ' 98101', ' 12345678 SEATTLE', ' #1234', ' #12', ' 1234567', ' wa', ' NY 10001', ' 0042', ' x1']
@@ -129,10 +130,13 @@ def tally(b, *args):
 
 def cli_loop(rec, rnd, tmp, k):
     descs = []
-    while len(descs) < 8:
+    while len(descs) < 6:
         d = gen_desc(rnd)
         if d and d not in descs and '\t' not in d[:1]:
             descs.append(d)
+    # two descriptions that clean up to the same merchant NAME but need different patterns
+    w1, w2 = rnd.choice(WORDS[:12]).upper(), rnd.choice(WORDS[:12]).upper()
+    descs += ['%s #%d %s WA' % (w1, rnd.randint(100, 999), w2), '%s #%d %s WA' % (w1, rnd.randint(1000, 9999), w2)]
     b = make_budget(tmp, k, descs)
     case = {'kind': 'cli', 'descs': descs}
     rec.case()
